@@ -38,6 +38,32 @@ theorem tsort_order_independent {d d' : Dag} (h : d.Perm d') : tsort d = tsort d
 theorem remove_complements_perm_invariant {xs ys : List Opnd} (h : xs.Perm ys) :
     removeComplements xs = removeComplements ys := removeComplements_perm h
 
+/-- **tsort, inside the dependency sets**: enumerating each node's dependency set in another order changes nothing either;
+    together with `tsort_order_independent` every iteration order `tsort` can meet is covered -/
+theorem tsort_inner_order_independent {d d' : Dag} (h : InnerEq d d') : tsort d = tsort d' := tsort_innerEq h
+
+/-- **absorb_and_eliminate (absorption)**: which operands are absorbed (`A OR (A AND B) -> A`) does not depend on the order in
+    which the operand sets (`set(op.flatten())`, the `for i in superset` loop) hand out their elements -/
+theorem absorb_order_independent {ops ops' : List AOp} (h : AOpsEq ops ops') : absorbPass ops = absorbPass ops' :=
+  absorbPass_eq h
+
+theorem absorbed_superset_order_independent (ops : List AOp) {sup sup' : List Nat} (h : sup.Perm sup') :
+    absorbed ops sup = absorbed ops sup' := absorbed_eq (by
+      induction ops with
+      | nil => trivial
+      | cons o os ih => exact ⟨rfl, List.Perm.refl _, ih⟩) h
+
+/-- **CTE de-duplication in eliminate_subqueries**: `existing_ctes` and `taken` are only ever looked up (never iterated), so
+    every decision of a run — the name each derived table / CTE gets, and whether an existing CTE is reused — is the same
+    whatever order the two dicts store their entries in (keys of `existing_ctes` distinct, as in any dict) -/
+theorem cte_dedup_storage_order_independent {a b : CteSt} (hs : a.Same b) (ha : a.Ok) (xs : List (Nat × Name)) :
+    elimAll a xs = elimAll b xs := elimAll_same hs ha xs
+
+example : absorbPass [⟨[1], false⟩, ⟨[2, 1], true⟩, ⟨[3, 4], true⟩] = [false, true, false] ∧
+    absorbPass [⟨[1], false⟩, ⟨[1, 2], true⟩, ⟨[4, 3], true⟩] = [false, true, false] := by decide
+example : elimAll ⟨[(7, [5])], [[5], [0]]⟩ [(7, []), (8, []), (9, [5]), (8, [6])] =
+    [([5], false), ([0, 2], true), ([5, 2], true), ([0, 2], false)] := by decide +kernel
+
 example : uniqSort false [2, 0, 1, 0] = ⟨[0, 1, 2], false⟩ ∧ uniqSort false [0, 1, 2, 0] = ⟨[0, 1, 2], false⟩ ∧
     uniqSort false [3, 3] = ⟨[3], true⟩ ∧ uniqSort true [1, 0, 1] = ⟨[0, 1, 1], false⟩ := by decide
 example : tsort [(2, [1]), (1, [0, 5]), (0, [])] = some [0, 5, 1, 2] ∧ tsort [(0, []), (1, [0, 5]), (2, [1])] = some [0, 5, 1, 2] ∧
@@ -118,5 +144,56 @@ theorem generator_next_name_snapshot_witness :
     extracted from the current source, are exactly the audited ones (finite table, decided completely).  What the audited
     ones do to results is covered by the fresh-process / call-order sweep, not by this theorem. -/
 theorem process_wide_state_ok : processWideState = expectedProcessWideState := by decide +kernel
+
+/-- the only writer of `_DISPATCH_CACHE` is `Generator.__init__`, the only writers of the dialect registry are the metaclass
+    `__new__` and `_try_load`, and the fill has the audited shape `v = C.get(cls); if v is None: v = _build_dispatch(cls); C[cls] = v` -/
+theorem process_wide_tables_shape :
+    ((processWideState.filter fun e => e.2.1 == "_DISPATCH_CACHE" && e.2.2.1 == "module-global").map (·.2.2.2)) = ["Generator.__init__"] ∧
+    ((processWideState.filter fun e => e.2.1 == "cls._classes").map (·.2.2.2)) = ["_Dialect.__new__", "_Dialect._try_load"] ∧
+    dispatchCacheFill = expectedDispatchCacheFill := by decide +kernel
+
+/-- **dispatch_cache_idempotent**: for a table filled on demand with a function of the key (`fillGet`), any two fills of a key
+    write the same value (a race or a reuse stores what is already there), a second lookup changes nothing, and after ANY
+    history of lookups a lookup answers what it answers in a fresh process -/
+theorem dispatch_cache_idempotent (build : Nat → Nat) (hist : List Nat) (k : Nat) :
+    (fillGet build (runFills build [] hist) k).1 = (fillGet build [] k).1 ∧
+    (fillGet build (fillGet build (runFills build [] hist) k).2 k) = (build k, (fillGet build (runFills build [] hist) k).2) ∧
+    Coherent build (runFills build [] hist) := by
+  have hc := runFills_coherent (coherent_nil build) hist
+  have hc2 := fillGet_coherent hc k
+  refine ⟨by rw [fillGet_value hc, fillGet_value (coherent_nil build)], ?_, hc⟩
+  have hv := fillGet_value hc2 k
+  -- after the first lookup the key is present, so the second one does not touch the table
+  have hpres : ∃ v, tget (fillGet build (runFills build [] hist) k).2 k = some v := by
+    unfold fillGet
+    cases hg : tget (runFills build [] hist) k with
+    | some v => exact ⟨v, hg⟩
+    | none => exact ⟨build k, by simp [tget_cons]⟩
+  obtain ⟨v, hv'⟩ := hpres
+  have : v = build k := hc2 k v hv'
+  subst this
+  rw [fillGet_present hv']
+
+/-- the dialect registry is such a table (`_classes[name]`, filled by importing the dialect module): whatever dialects were
+    looked up before, in whatever order, a name resolves to the class its module defines -/
+theorem registry_lookup_eq_fresh (load : Nat → Nat) (hist : List Nat) (name : Nat) :
+    (fillGet load (runFills load [] hist) name).1 = load name := by
+  rw [(dispatch_cache_idempotent load hist name).1, fillGet_value (coherent_nil load)]
+
+/-! ### (d) Dialect instances -/
+
+/-- **dialect_instance_reuse_eq_fresh**: no method of any dialect class other than `__init__` assigns an instance field
+    (finite table from the current source), so after any history of calls a Dialect object holds what a new one built from the
+    same settings holds.  (MappingSchema's caches are C18's subject: `C18.schema_refines_fresh`.) -/
+theorem dialect_instance_reuse_eq_fresh :
+    dialectWritten = [] ∧
+    ∀ dirty : State, (∀ f, f ∉ dialectWritten → dirty f = fresh dialectInit f) → ∀ f, dirty f = fresh dialectInit f := by
+  have h : dialectWritten = [] := by decide +kernel
+  exact ⟨h, fun dirty hd f => hd f (by rw [h]; simp)⟩
+
+/-- `Dialect.get_or_raise("name, k1 = v1, k2 = v2")`: the keyword settings end up in one dict, so the order in which distinct
+    settings are written in the string does not matter for any field of the instance -/
+theorem dialect_settings_order_independent {kv kv' : Assigns} (hn : (kv.map (·.1)).Nodup) (h : kv.Perm kv')
+    (defaults : State) (f : String) : setAll kv defaults f = setAll kv' defaults f := setAll_perm hn h defaults f
 
 end SqlglotModel.Properties.C15
